@@ -466,12 +466,12 @@ def PassRun (x y aL aH : Nat) (B : Int) : Net → List (Nat × Int) → Prop
        (i = y ∧ c.tx = none ∧ (PassRun x y aL aH B n' rest ∨ (now ≤ B ∧ c.s.st = .useToken ⟨now, none⟩ false))))
 
 /-- Before the pass or token on the bus. -/
-def TPh (cfg : Cfg) (n : Net) (x y : Nat) (stx sty : NetStation) (lx : Int) (M : List Nat) (tl : Int) : Prop :=
+def TPass (cfg : Cfg) (n : Net) (x y : Nat) (stx sty : NetStation) (lx : Int) (M : List Nat) (tl : Int) : Prop :=
   (∃ ly, TP0 cfg n x y stx sty lx ly M tl) ∨
   (∃ p lY, TP1 cfg n x y stx sty p lY M (lx + 2 * (cfg.b33 : Nat) + 2 * (cfg.P : Nat) + 1) tl)
 
-theorem TPh.info {cfg : Cfg} {n : Net} {x y : Nat} {stx sty : NetStation} {lx : Int} {M : List Nat} {tl : Int}
-    (h : TPh cfg n x y stx sty lx M tl) :
+theorem TPass.info {cfg : Cfg} {n : Net} {x y : Nat} {stx sty : NetStation} {lx : Int} {M : List Nat} {tl : Int}
+    (h : TPass cfg n x y stx sty lx M tl) :
     n.stations[x]? = some stx ∧ n.stations[y]? = some sty ∧ x < n.stations.length ∧ y < n.stations.length ∧ y ≠ x := by
   rcases h with ⟨ly, h⟩ | ⟨p, lY, h⟩
   · exact ⟨h.soloX.gx, h.soloY.gx, h.soloX.xl, h.soloY.xl, h.yx⟩
@@ -483,7 +483,7 @@ out; the adopted station receives the token in whatever pieces it arrives, accep
 `lx + 2·bits 33 + 2P + 1`. -/
 theorem pass_run {cfg : Cfg} (hok : cfg.Ok) (x y : Nat) (lx : Int) (M : List Nat) (aL aH : Nat) :
     ∀ (evs : List (Nat × Int)) (n : Net) (stx sty : NetStation) (tl : Int),
-    TPh cfg n x y stx sty lx M tl → n.stations.length = 2 → stx.s.p.address = aL → sty.s.p.address = aH →
+    TPass cfg n x y stx sty lx M tl → n.stations.length = 2 → stx.s.p.address = aL → sty.s.p.address = aH →
     SchedN cfg.P n tl evs →
     PassRun x y aL aH (lx + 2 * (cfg.b33 : Nat) + 2 * (cfg.P : Nat) + 1) n evs := by
   intro evs
